@@ -3,6 +3,13 @@
 \* Distinct, Project.  Solutions are functions from keys <<"v", name>> to terms; results are bags,
 \* represented as sequences whose order is irrelevant.
 EXTENDS Naturals, Sequences, FiniteSets, TLC
+\* SPARQL 17.3.1 lets an implementation give a value to an operator application that the standard makes a type error.
+\* LangCmpExt = TRUE: language-tagged strings are values: '=' on two different ones is false and '<' orders them by
+\* (tag, lexical form), as sophia_sparql does;
+\* FALSE: it is a type error.  SameLitExt = TRUE: a literal of an unrecognised datatype compares equal to itself under
+\* <, >, <=, >= (so "x"^^ex:dt <= "x"^^ex:dt is true), as sophia_sparql does; FALSE: a type error.
+\* A result is accepted when it is the algebra's answer under some reading of the extension points (Trace_Sparql).
+CONSTANTS LangCmpExt, SameLitExt
 DG == [k |-> "dg"]
 Xsd(s) == <<104,116,116,112,58,47,47,119,119,119,46,119,51,46,111,114,103,47,50,48,48,49,47,88,77,76,83,99,104,101,109,97,35>> \o s
 XsdInteger == Xsd(<<105,110,116,101,103,101,114>>)
@@ -40,7 +47,27 @@ V(x) == [t |-> "term", v |-> x]
 IsDigits(s) == Len(s) > 0 /\ \A i \in 1..Len(s) : s[i] >= 48 /\ s[i] <= 57
 RECURSIVE NatOf(_, _, _)
 NatOf(s, i, acc) == IF i > Len(s) THEN acc ELSE NatOf(s, i + 1, acc * 10 + (s[i] - 48))
-IsInt(x) == x.k = "lit" /\ x.lang = <<>> /\ x.dt = XsdInteger /\ IsDigits(x.lex) /\ Len(x.lex) <= 6
+\* integers: -?[0-9]+ of at most 6 digits (TLC's integers hold them and their sums / products of two)
+IntDigits(s) == IF Len(s) > 0 /\ s[1] = 45 THEN SubSeq(s, 2, Len(s)) ELSE s
+IsInt(x) == x.k = "lit" /\ x.lang = <<>> /\ x.dt = XsdInteger /\ IsDigits(IntDigits(x.lex)) /\ Len(IntDigits(x.lex)) <= 6
+IntVal(x) == IF x.lex[1] = 45 THEN 0 - NatOf(IntDigits(x.lex), 1, 0) ELSE NatOf(x.lex, 1, 0)
+RECURSIVE NatLex(_)
+NatLex(n) == IF n < 10 THEN <<48 + n>> ELSE NatLex(n \div 10) \o <<48 + (n % 10)>>
+MkInt(n) == [k |-> "lit", lex |-> (IF n < 0 THEN <<45>> \o NatLex(0 - n) ELSE NatLex(n)), dt |-> XsdInteger, lang |-> <<>>]
+\* string literals: simple (xsd:string) or language-tagged (term_json writes dt = <<>> for those)
+IsStrLit(x) == x.k = "lit" /\ (x.lang # <<>> \/ x.dt = XsdString)
+MkStr(lex, lang) == [k |-> "lit", lex |-> lex, dt |-> (IF lang = <<>> THEN XsdString ELSE <<>>), lang |-> lang]
+RdfLangString == <<104,116,116,112,58,47,47,119,119,119,46,119,51,46,111,114,103,47,49,57,57,57,47,48,50,47,50,50,45,114,100,102,45,115,121,110,116,97,120,45,110,115,35,108,97,110,103,83,116,114,105,110,103>>
+\* SPARQL 17.4.3.1.2 argument compatibility
+Compat(a, b) == IsStrLit(a) /\ IsStrLit(b) /\ (b.lang = <<>> \/ a.lang = b.lang)
+StartsWith(h, n) == Len(n) <= Len(h) /\ SubSeq(h, 1, Len(n)) = n
+EndsWith(h, n) == Len(n) <= Len(h) /\ SubSeq(h, Len(h) - Len(n) + 1, Len(h)) = n
+ContainsSeq(h, n) == \E i \in 0..(Len(h) - Len(n)) : SubSeq(h, i + 1, i + Len(n)) = n
+\* fn:substring on integer arguments: the characters at the 1-based positions p with start <= p (< start + len)
+SelectPos(lex, P(_)) == LET RECURSIVE F(_) F(i) == IF i > Len(lex) THEN <<>> ELSE (IF P(i) THEN <<lex[i]>> ELSE <<>>) \o F(i + 1) IN F(1)
+\* case mapping on the characters of the universe (ASCII letters and e-acute)
+Up(c) == IF c >= 97 /\ c <= 122 THEN c - 32 ELSE IF c = 233 THEN 201 ELSE c
+Low(c) == IF c >= 65 /\ c <= 90 THEN c + 32 ELSE IF c = 201 THEN 233 ELSE c
 IsStr(x) == x.k = "lit" /\ x.lang = <<>> /\ x.dt = XsdString
 RECURSIVE StrLess(_, _, _)
 StrLess(a, b, i) == IF i > Len(a) THEN i <= Len(b) ELSE IF i > Len(b) THEN FALSE
@@ -48,19 +75,24 @@ StrLess(a, b, i) == IF i > Len(a) THEN i <= Len(b) ELSE IF i > Len(b) THEN FALSE
 \* effective boolean value of an evaluation result
 Ebv(r) == IF r.t = "bool" THEN r
           ELSE IF r.t = "err" THEN Err
-          ELSE IF IsInt(r.v) THEN B(NatOf(r.v.lex, 1, 0) # 0)
-          ELSE IF IsStr(r.v) THEN B(r.v.lex # <<>>)
+          ELSE IF IsInt(r.v) THEN B(IntVal(r.v) # 0)
+          ELSE IF IsStrLit(r.v) THEN B(r.v.lex # <<>>)        \* plain literals (also language-tagged) and xsd:string: false iff empty
           ELSE IF r.v.k = "lit" /\ r.v.lang = <<>> /\ r.v.dt = XsdBoolean THEN B(r.v.lex = <<116,114,117,101>>)
           ELSE Err
 AsTerm(r) == IF r.t = "bool" THEN [k |-> "lit", lex |-> (IF r.b THEN <<116,114,117,101>> ELSE <<102,97,108,115,101>>), dt |-> XsdBoolean, lang |-> <<>>] ELSE r.v
 IsBool(x) == x.k = "lit" /\ x.lang = <<>> /\ x.dt = XsdBoolean /\ x.lex \in {<<116,114,117,101>>, <<102,97,108,115,101>>}
 EqV(a, b) ==    \* RDFterm-equal / value equality on the modelled value classes
-  IF IsInt(a) /\ IsInt(b) THEN B(NatOf(a.lex, 1, 0) = NatOf(b.lex, 1, 0))
+  IF IsInt(a) /\ IsInt(b) THEN B(IntVal(a) = IntVal(b))
   ELSE IF a = b THEN B(TRUE)
-  ELSE IF a.k = "lit" /\ b.k = "lit" THEN (IF (IsStr(a) /\ IsStr(b)) \/ (IsBool(a) /\ IsBool(b)) THEN B(FALSE) ELSE Err)
+  ELSE IF a.k = "lit" /\ b.k = "lit" THEN (IF (IsStr(a) /\ IsStr(b)) \/ (IsBool(a) /\ IsBool(b)) THEN B(FALSE)
+                                          ELSE IF LangCmpExt /\ a.lang # <<>> /\ b.lang # <<>> THEN B(FALSE)      \* language-tagged strings as values
+                                          ELSE Err)
   ELSE B(FALSE)
-LtV(a, b) == IF IsInt(a) /\ IsInt(b) THEN B(NatOf(a.lex, 1, 0) < NatOf(b.lex, 1, 0))
+LtV(a, b) == IF IsInt(a) /\ IsInt(b) THEN B(IntVal(a) < IntVal(b))
              ELSE IF IsStr(a) /\ IsStr(b) THEN B(StrLess(a.lex, b.lex, 1))
+             ELSE IF SameLitExt /\ a = b /\ a.k = "lit" /\ ~IsInt(a) /\ ~IsStrLit(a) /\ ~IsBool(a) THEN B(FALSE)
+             ELSE IF LangCmpExt /\ a.k = "lit" /\ b.k = "lit" /\ a.lang # <<>> /\ b.lang # <<>>
+                  THEN B(StrLess(a.lang, b.lang, 1) \/ (a.lang = b.lang /\ StrLess(a.lex, b.lex, 1)))
              ELSE IF IsBool(a) /\ IsBool(b) THEN B(a.lex = <<102,97,108,115,101>> /\ b.lex = <<116,114,117,101>>)
              ELSE Err
 RECURSIVE EvalE(_, _)
@@ -72,6 +104,53 @@ EvalE(e, mu) ==
     [] e.op = "eq"    -> LET a == EvalE(e.a, mu) b == EvalE(e.b, mu) IN IF a.t = "err" \/ b.t = "err" THEN Err ELSE EqV(AsTerm(a), AsTerm(b))
     [] e.op = "lt"    -> LET a == EvalE(e.a, mu) b == EvalE(e.b, mu) IN IF a.t = "err" \/ b.t = "err" THEN Err ELSE LtV(AsTerm(a), AsTerm(b))
     [] e.op = "not"   -> LET a == Ebv(EvalE(e.a, mu)) IN IF a.t = "err" THEN Err ELSE B(~a.b)
+    \* ---- comparison operators derived from = and < ----
+    [] e.op = "ne"    -> LET a == EvalE(e.a, mu) b == EvalE(e.b, mu) IN IF a.t = "err" \/ b.t = "err" THEN Err ELSE
+                         LET r == EqV(AsTerm(a), AsTerm(b)) IN IF r.t = "err" THEN Err ELSE B(~r.b)
+    [] e.op = "gt"    -> LET a == EvalE(e.a, mu) b == EvalE(e.b, mu) IN IF a.t = "err" \/ b.t = "err" THEN Err ELSE LtV(AsTerm(b), AsTerm(a))
+    [] e.op = "le"    -> LET a == EvalE(e.a, mu) b == EvalE(e.b, mu) IN IF a.t = "err" \/ b.t = "err" THEN Err ELSE
+                         LET r == LtV(AsTerm(b), AsTerm(a)) IN IF r.t = "err" THEN Err ELSE B(~r.b)
+    [] e.op = "ge"    -> LET a == EvalE(e.a, mu) b == EvalE(e.b, mu) IN IF a.t = "err" \/ b.t = "err" THEN Err ELSE
+                         LET r == LtV(AsTerm(a), AsTerm(b)) IN IF r.t = "err" THEN Err ELSE B(~r.b)
+    \* ---- integer arithmetic ----
+    [] e.op \in {"add", "sub", "mul"} ->
+                         LET a == EvalE(e.a, mu) b == EvalE(e.b, mu) IN IF a.t = "err" \/ b.t = "err" THEN Err ELSE
+                         LET x == AsTerm(a) y == AsTerm(b) IN IF ~(IsInt(x) /\ IsInt(y)) THEN Err
+                         ELSE V(MkInt(CASE e.op = "add" -> IntVal(x) + IntVal(y) [] e.op = "sub" -> IntVal(x) - IntVal(y) [] OTHER -> IntVal(x) * IntVal(y)))
+    \* ---- functional forms ----
+    [] e.op = "sameterm" -> LET a == EvalE(e.a, mu) b == EvalE(e.b, mu) IN IF a.t = "err" \/ b.t = "err" THEN Err ELSE B(AsTerm(a) = AsTerm(b))
+    [] e.op = "if"    -> LET c == Ebv(EvalE(e.c, mu)) IN IF c.t = "err" THEN Err ELSE IF c.b THEN EvalE(e.a, mu) ELSE EvalE(e.b, mu)
+    [] e.op = "coalesce" -> LET rs == [i \in 1..Len(e.args) |-> EvalE(e.args[i], mu)] IN
+                         IF \A i \in 1..Len(rs) : rs[i].t = "err" THEN Err ELSE rs[CHOOSE i \in 1..Len(rs) : rs[i].t # "err" /\ \A j \in 1..(i - 1) : rs[j].t = "err"]
+    \* ---- functions on terms (SPARQL 17.4.2) ----
+    [] e.op \in {"isblank", "isliteral", "isnumeric", "str", "lang", "datatype"} ->
+                         LET a == EvalE(e.a, mu) IN IF a.t = "err" THEN Err ELSE LET x == AsTerm(a) IN
+                         CASE e.op = "isblank" -> B(x.k = "bnode")
+                           [] e.op = "isliteral" -> B(x.k = "lit")
+                           [] e.op = "isnumeric" -> B(IsInt(x))          \* the universe has no other numeric datatype
+                           [] e.op = "str" -> IF x.k = "iri" THEN V(MkStr(x.v, <<>>)) ELSE IF x.k = "lit" THEN V(MkStr(x.lex, <<>>)) ELSE Err
+                           [] e.op = "lang" -> IF x.k = "lit" THEN V(MkStr(x.lang, <<>>)) ELSE Err
+                           [] OTHER -> IF x.k = "lit" THEN V([k |-> "iri", v |-> (IF x.lang # <<>> THEN RdfLangString ELSE x.dt)]) ELSE Err
+    \* ---- functions on strings (SPARQL 17.4.3) ----
+    [] e.op \in {"strlen", "ucase", "lcase"} ->
+                         LET a == EvalE(e.a, mu) IN IF a.t = "err" THEN Err ELSE LET x == AsTerm(a) IN
+                         IF ~IsStrLit(x) THEN Err
+                         ELSE IF e.op = "strlen" THEN V(MkInt(Len(x.lex)))
+                         ELSE V(MkStr([i \in 1..Len(x.lex) |-> IF e.op = "ucase" THEN Up(x.lex[i]) ELSE Low(x.lex[i])], x.lang))
+    [] e.op \in {"strstarts", "strends", "contains"} ->
+                         LET a == EvalE(e.a, mu) b == EvalE(e.b, mu) IN IF a.t = "err" \/ b.t = "err" THEN Err ELSE
+                         LET x == AsTerm(a) y == AsTerm(b) IN IF ~Compat(x, y) THEN Err
+                         ELSE B(CASE e.op = "strstarts" -> StartsWith(x.lex, y.lex) [] e.op = "strends" -> EndsWith(x.lex, y.lex) [] OTHER -> ContainsSeq(x.lex, y.lex))
+    [] e.op = "substr" -> LET a == EvalE(e.a, mu) b == EvalE(e.b, mu) IN IF a.t = "err" \/ b.t = "err" THEN Err ELSE
+                         LET x == AsTerm(a) st == AsTerm(b) IN IF ~(IsStrLit(x) /\ IsInt(st)) THEN Err
+                         ELSE IF "c" \notin DOMAIN e THEN V(MkStr(SelectPos(x.lex, LAMBDA p : p >= IntVal(st)), x.lang))
+                         ELSE LET c == EvalE(e.c, mu) IN IF c.t = "err" THEN Err ELSE LET ln == AsTerm(c) IN IF ~IsInt(ln) THEN Err
+                              ELSE V(MkStr(SelectPos(x.lex, LAMBDA p : p >= IntVal(st) /\ p < IntVal(st) + IntVal(ln)), x.lang))
+    [] e.op = "concat" -> LET rs == [i \in 1..Len(e.args) |-> EvalE(e.args[i], mu)] IN
+                         IF \E i \in 1..Len(rs) : rs[i].t = "err" \/ ~IsStrLit(AsTerm(rs[i])) THEN Err
+                         ELSE LET xs == [i \in 1..Len(rs) |-> AsTerm(rs[i])]
+                                  tag == IF Len(xs) > 0 /\ \A i \in 1..Len(xs) : xs[i].lang = xs[1].lang THEN xs[1].lang ELSE <<>>
+                              IN V(MkStr(Concat([i \in 1..Len(xs) |-> xs[i].lex]), tag))
     [] e.op = "and"   -> LET a == Ebv(EvalE(e.a, mu)) b == Ebv(EvalE(e.b, mu)) IN
                          IF a.t = "bool" /\ b.t = "bool" THEN B(a.b /\ b.b)
                          ELSE IF (a.t = "bool" /\ ~a.b) \/ (b.t = "bool" /\ ~b.b) THEN B(FALSE) ELSE Err
